@@ -47,9 +47,8 @@ TEnd == Step(Ev.op = "end" /\ Same /\ Keep)          \* both logs have the same 
 
 (* ---- recognised deviations -------------------------------------------------------------- *)
 (* Each disjunct admits exactly one fingerprint and is enabled only when the check passes     *)
-(* ADMIT_Fx = "1" (checks/C03.py: the finding is listed as open in known_findings.json, or -   *)
-(* for F3 - its repair is not yet in the tree).  With "0" the event has no enabled step and   *)
-(* the trace is rejected there.                                                                *)
+(* ADMIT_Fx = "1" (checks/C03.py: the finding is listed as open in known_findings.json).      *)
+(* With "0" the event has no enabled step and the trace is rejected there.                    *)
 (* C03-F1: EIP155Signer with chain id 0 signs the nine-field hash but emits v = 27/28; Sender  *)
 (* then recovers over the six-field hash.                                                      *)
 TKnownF1 == IOEnv.ADMIT_F1 = "1" /\
@@ -62,15 +61,9 @@ TKnownF2 == IOEnv.ADMIT_F2 = "1" /\
             Step(/\ Ev.op = "csign" /\ Keep /\ A.class = "digestGeN"
                  /\ A.sig # Ev.b.sig /\ [A EXCEPT !.sig = ""] = [Ev.b EXCEPT !.sig = ""]
                  /\ A.ok /\ A.lowS /\ A.v01 /\ A.selfRecovers /\ A.selfVerifies)
-(* C03-F3: the pure-Go Ecrecover accepts recovery ids 4..7 (decred's "compressed key" flag)    *)
-(* which the cgo backend rejects.                                                             *)
-TKnownF3 == IOEnv.ADMIT_F3 = "1" /\
-            Step(/\ Ev.op = "recover" /\ Keep /\ A.class = "vBad" /\ A.v \in 4..7
-                 /\ ~A.ok /\ Ev.b.ok /\ A.sig = Ev.b.sig /\ A.hash = Ev.b.hash)
-
 TraceInit == l = 1 /\ tx = [type |-> -1] /\ cache = NoCache /\ out = [signer |-> NoCache.signer, res |-> "init"]
 TraceNext == TRow \/ TRows \/ THash \/ TSign \/ TSender \/ TCSign \/ TRecover \/ TVerify \/ TPubkey \/ TEnd
-             \/ TKnownF1 \/ TKnownF2 \/ TKnownF3
+             \/ TKnownF1 \/ TKnownF2
 TraceSpec == TraceInit /\ [][TraceNext]_<<l, tx, cache, out>>
 
 CacheOK == out.res = "init" \/ (CacheTransparent /\ CacheSound)
